@@ -356,19 +356,31 @@ def check_mixed(case, rec):
               *('foreign=' + k for (_p, k) in case['foreign']))
     try:
         with np.errstate(all='ignore'):
+            other = arr[::-1].copy()
             if case['via_scaling']:
                 factor = 1000.0
                 sc = scaling.ThermocoupleScaling(NI_CODES[t], case['direction'], 0xFFFFFFFF)
                 whole = np.asarray(sc.scale(arr * factor if case['direction'] == 0 else arr.copy()), dtype=np.float64)
+                snap = whole.tobytes()
+                # a result already handed out must survive the conversion of another, equally long array
+                sc.scale(other * factor if case['direction'] == 0 else other)
+                mutated = whole.tobytes() != snap
                 alone = np.array([np.asarray(sc.scale(np.array([v * factor if case['direction'] == 0 else v])))[0]
                                   for v in arr[marks]], dtype=np.float64)
             else:
                 fn = tc(t).mv_to_celsius if case['direction'] == 0 else tc(t).celsius_to_mv
                 whole = np.asarray(fn(arr.copy()), dtype=np.float64)
+                snap = whole.tobytes()
+                fn(other)
+                mutated = whole.tobytes() != snap
                 alone = np.array([np.asarray(fn(np.array([v])))[0] for v in arr[marks]], dtype=np.float64)
     except Exception as e:      # noqa
         rec.violation('elementwise:raised', 'type %s direction %d on %r: %s' % (t, case['direction'], arr, describe_exc(e)),
                       key=exc_key(e))
+        return
+    if mutated:
+        rec.violation('result_mutated', 'type %s direction %d: the array returned for %r changed when another array of the same '
+                      'length was converted' % (t, case['direction'], arr))
         return
     if len(whole) != len(arr):
         rec.violation('elementwise:length', '%d samples in, %d out' % (len(arr), len(whole)))
@@ -391,7 +403,38 @@ def check_mixed(case, rec):
             rec.violation('inverse:' + t, 'type %s inside a mixed array: %r, true temperatures %r' % (t, got, T))
 
 
+def check_long(case, rec):
+    """ThermocoupleScaling over long arrays whose lengths sit on and next to powers of two (blocked evaluation)"""
+    from nptdms import scaling
+    t, d, n = case['type'], case['direction'], case['length']
+    rec.nontrivial(True)
+    rec.label('type=' + t, 'direction=%d' % d, 'length=%d' % n)
+    lo, hi = type_range(t) if d == 1 else INV_RANGE[t]
+    T = lo + (hi - lo) * ((np.arange(n, dtype=np.float64) * 0.6180339887498949) % 1.0)     # low-discrepancy cover of the range
+    inp = T if d == 1 else 1000.0 * ref_emf(t, T)
+    try:
+        got = np.asarray(scaling.ThermocoupleScaling(NI_CODES[t], d, 0xFFFFFFFF).scale(inp.copy()), dtype=np.float64)
+    except Exception as e:      # noqa
+        rec.violation('scaling:raised', describe_exc(e), key=exc_key(e))
+        return
+    if len(got) != n:
+        rec.violation('scaling:length', '%d samples in, %d out' % (n, len(got)))
+        return
+    if d == 1:
+        want = 1000.0 * ref_emf(t, T)
+        bad = np.nonzero(~(np.abs(got - want) <= 1e-6 + 1e-12 * np.abs(want)))[0]
+    else:
+        want = T
+        bad = np.nonzero(~(np.abs(got - want) <= INV_ERR[t] + 1e-6))[0]
+    if len(bad):
+        i = int(bad[0])
+        rec.violation('scaling:long_array', 'type %s direction %d, %d samples: sample %d (%r) converts to %r, expected %r '
+                      '(%d samples wrong, the last wrong one is %d)' % (t, d, n, i, inp[i], got[i], want[i], len(bad), int(bad[-1])))
+
+
 def check(case, rec):
+    if 'length' in case:
+        return check_long(case, rec)
     if 'valid' in case:
         return check_mixed(case, rec)
     if 'n' in case:
@@ -418,4 +461,9 @@ def jobs(tier):
             Job('piece_boundaries', 'enum', _enum(bnds), exhaustive=True, check=check_boundaries,
                 note='every piece boundary and range end with +-1, +-2 ulp neighbours, scalar and array'),
             Job('scaling_points', 'hyp', point_case, n=6000 if tier == 'quick' else 100000, check=check_scaling),
+            Job('long_arrays_through_scaling', 'enum',
+                _enum([{'type': t, 'direction': d, 'length': n} for t in TYPES for d in (0, 1)
+                       for n in ((1023, 1024, 1025, 4096, 4097, 32768, 32769, 65535, 65536, 65537, 131072, 131073) if tier == 'quick'
+                                 else tuple(2 ** k + e for k in range(8, 19) for e in (-1, 0, 1)))]),
+                exhaustive=True, check=check_long, note='8 types x 2 directions x lengths on and next to powers of two'),
             Job('arrays_with_foreign_samples', 'hyp', mixed_case, n=4000 if tier == 'quick' else 80000, check=check_mixed)]
